@@ -385,6 +385,21 @@ class STensor:
     def __neg__(self) -> Any:
         return dispatch("neg", torch.neg, (self,), {})
 
+    def __gt__(self, o: Any) -> Any:
+        return dispatch("gt", torch.gt, (self, o), {})
+
+    def __lt__(self, o: Any) -> Any:
+        return dispatch("lt", torch.lt, (self, o), {})
+
+    def __ge__(self, o: Any) -> Any:
+        return dispatch("ge", torch.ge, (self, o), {})
+
+    def __le__(self, o: Any) -> Any:
+        return dispatch("le", torch.le, (self, o), {})
+
+    def __abs__(self) -> Any:
+        return dispatch("abs", torch.abs, (self,), {})
+
     def __pow__(self, p: Any) -> Any:
         return dispatch("pow", torch.pow, (self, p), {})
 
@@ -411,6 +426,9 @@ class STensor:
 
 
 # =============================================================================== backward pass
+GRAD_RECORD: Optional[Dict[int, LC]] = None  # when set: id(tensor) -> total gradient that reached it
+
+
 def backward(root: STensor, g: LC) -> None:
     grads: Dict[int, LC] = {id(root): g}
     tensors: Dict[int, STensor] = {id(root): root}
@@ -432,6 +450,8 @@ def backward(root: STensor, g: LC) -> None:
         gt = grads.get(id(t))
         if gt is None:
             continue
+        if GRAD_RECORD is not None:
+            GRAD_RECORD[id(t)] = gt
         if t.node is None:
             if t.requires_grad:
                 t.grad = gt if t.grad is None else lc_add(t.grad, gt)
@@ -449,6 +469,8 @@ def backward(root: STensor, g: LC) -> None:
 def _meta_args(x: Any) -> Any:
     if isinstance(x, STensor):
         return x.meta
+    if isinstance(x, torch.Tensor) and x.device.type != "meta" and x.dim() > 0:
+        return torch.empty(x.shape, dtype=x.dtype, device="meta")
     if isinstance(x, SReal):
         return 0.5 if x.const is None else float(x.const)
     if isinstance(x, SInt):
@@ -480,8 +502,24 @@ def _scalar_of(x: Any) -> Optional[SReal]:
     return None
 
 
+LIFTED: Dict[int, Any] = {}
+
+
+def lift(t: Any) -> Any:
+    """a real tensor met during symbolic execution (module parameter fetched by get_attr, buffer) becomes a leaf"""
+    if not isinstance(t, torch.Tensor) or isinstance(t, STensor):
+        return t
+    if t.dim() == 0 and not t.requires_grad:
+        return t
+    key = id(t)
+    if key not in LIFTED:
+        LIFTED[key] = (t, STensor.leaf(f"real{len(LIFTED)}", tuple(t.shape), t.dtype, requires_grad=bool(t.requires_grad)))
+    return LIFTED[key][1]
+
+
 def opaque(name: str, targs: List[Any], kw: Dict[str, Any], shape: Sequence[Any], meta: torch.Tensor,
            diff: Optional[List[int]] = None) -> STensor:
+    targs = [lift(a) for a in targs]
     """A torch op as an uninterpreted term over its (normal-form) operands; vjp_i is a fresh term linear in g."""
     args = tuple(a.lc if isinstance(a, STensor) else a for a in targs)
     kwt = tuple(sorted(kw.items()))
@@ -538,6 +576,8 @@ ELEMENTWISE_UNARY = {"gelu", "silu", "sigmoid", "tanh", "relu", "exp", "log", "e
 
 def dispatch(name: str, func: Any, args: Tuple[Any, ...], kwargs: Dict[str, Any]) -> Any:
     name = ALIASES.get(name, name)
+    args = tuple(lift(a) for a in args)
+    kwargs = {k: lift(v) for k, v in kwargs.items()}
     h = HANDLERS.get(name)
     if h is None:
         if name in ELEMENTWISE_UNARY:
@@ -558,11 +598,13 @@ def _h_generic(name: str, func: Any, args: Tuple[Any, ...], kw: Dict[str, Any]) 
     if not isinstance(meta, torch.Tensor):
         raise HarnessError(f"engine S has no stub for torch op '{name}' (non-tensor result)")
     ts = [a for a in args if isinstance(a, STensor)]
-    shape: Tuple[Any, ...] = tuple(meta.shape)
-    for t in ts:
-        if t.shape.sample() == tuple(meta.shape):
-            shape = tuple(t.shape)
-            break
+    dims: List[Any] = list(meta.shape)
+    for i, d in enumerate(meta.shape):  # a result dim that coincides with an operand's dim at the same position is that dimension symbol
+        for t in ts:
+            if len(t.shape) == len(meta.shape) and t.shape.sample()[i] == d:
+                dims[i] = t.shape[i]
+                break
+    shape: Tuple[Any, ...] = tuple(dims)
     ctx().events.append(f"generic stub for {name}")
     statics = {k: (v if not isinstance(v, torch.dtype) else str(v)) for k, v in kw.items() if not isinstance(v, STensor)}
     return opaque(f"?{name}", list(args), statics, shape, meta)
@@ -1139,6 +1181,16 @@ class FShim:
 TF = FShim()
 
 
+class _TensorLikeMeta(type):
+    def __instancecheck__(cls, obj: Any) -> bool:
+        return isinstance(obj, (torch.Tensor, STensor))
+
+
+class TensorLike(metaclass=_TensorLikeMeta):
+    """stands in for the name `Tensor` inside library modules: isinstance(x, Tensor) accepts symbolic tensors, and it is
+    still a type (usable in typing expressions evaluated at run time)"""
+
+
 # =============================================================================== session (interception points)
 class FakeCtx:
     def __init__(self) -> None:
@@ -1185,8 +1237,10 @@ class Session:
         orig_apply_fn = torch.autograd.Function.apply
 
         def apply(cls: Any, *args: Any, **kwargs: Any) -> Any:
+            if Mode.active and any(isinstance(a, torch.Tensor) and a.dim() > 0 for a in args):
+                args = tuple(lift(a) for a in args)  # module parameters met by an instrumenting interpreter
             if not _contains_st(args):
-                return orig_apply_fn.__func__(cls, *args, **kwargs)
+                return orig_apply.__get__(None, cls)(*args, **kwargs)
             fctx = FakeCtx()
             fctx.needs_input_grad = tuple(isinstance(a, STensor) and a.requires_grad for a in args)
             with no_grad():
@@ -1254,7 +1308,15 @@ class Session:
             return float(x)
 
         patch(uo, "float", sym_float)
-        patch(uo, "Tensor", (torch.Tensor, STensor))
+        patch(uo, "Tensor", TensorLike)
+        import unit_scaling.transforms._track_scales as uts
+        import unit_scaling.utils as uut
+        from .scalar import sym_isclose
+        patch(uts, "Tensor", TensorLike)
+        patch(uts, "isclose", sym_isclose)
+        patch(uut, "Tensor", TensorLike)
+        patch(uut, "float", sym_float)
+        LIFTED.clear()
         Mode.active += 1
         return self
 
